@@ -322,7 +322,11 @@ impl ParsedParameters {
 
                 OpParameter::Text { key, default } => {
                     if let Some(value) = chase(globals, &locals, key)? {
-                        // should chase!
+                        // An ellipsoid is looked up (and unwrapped) every time the operator
+                        // is applied, so it must be known to exist before we get that far
+                        if key.starts_with("ellps") {
+                            Ellipsoid::named(&value)?;
+                        }
                         text.insert(key, value.to_string());
                         continue;
                     }
